@@ -168,26 +168,105 @@ def _same(a, b):
 # (iii) random arrays
 # ---------------------------------------------------------------------------------------------
 class _Philox:
-    def __init__(self, key=None, **kw):
-        if not sx.sand(key >= 0, key < 2**128):
+    """numpy.random.Philox as far as cubed can observe it: the key it was created with, and -- for code that keeps a bit generator
+    alive between blocks -- its `state` dictionary (key, counter, output buffer position, cached half of the last 64-bit draw).
+    How draws move that state follows NumPy's philox.h (one 64-bit output per float64; float32 takes 32-bit halves and caches the
+    other half in `uinteger` / `has_uint32`); rng_validate() checks this evolution against the installed NumPy at check start."""
+
+    _fresh = 0
+
+    def __init__(self, seed=None, counter=None, key=None, **kw):
+        if key is None:
+            _Philox._fresh += 1
+            key = ("os-entropy", _Philox._fresh)  # unseeded: a stream nobody can reproduce
+        elif not sx.sand(key >= 0, key < 2**128):
             raise ValueError("key must be positive and fit in 128 bits (as numpy.random.Philox)")
         self.key = key
+        self.counter = 0
+        self.pos = 4  # buffer exhausted
+        self.buf = None  # (key, counter) the 4-word buffer was generated from
+        self.h = 0
+        self.u = None
+
+    # -- what a draw can depend on
+    def snapshot(self):
+        return (self.key, self.counter, self.pos, self.buf if self.pos < 4 else None, self.h, self.u if self.h else None)
+
+    def _next64(self):
+        if self.pos >= 4:
+            self.counter = self.counter + 1
+            self.buf = (self.key, self.counter)
+            self.pos = 0
+        w = (self.buf, self.pos)
+        self.pos += 1
+        return w
+
+    def draw(self, n, is32):
+        for _ in range(n):
+            if is32:
+                if self.h:
+                    self.h, self.u = 0, self.u
+                else:
+                    w = self._next64()
+                    self.h, self.u = 1, ("high-half", w)
+            else:
+                self._next64()
+
+    @property
+    def state(self):
+        import numpy as np
+
+        if not isinstance(self.key, int):
+            kw = [0, 0]
+        else:
+            kw = [self.key % 2**64, self.key >> 64]
+        return {"bit_generator": "Philox", "state": {"counter": np.array([(self.counter >> (64 * i)) % 2**64 for i in range(4)], dtype=np.uint64), "key": np.array(kw, dtype=np.uint64)},
+                "buffer": np.zeros(4, dtype=np.uint64), "buffer_pos": self.pos, "has_uint32": self.h, "uinteger": 0 if self.u is None else 12345, "_u": self.u, "_buf": self.buf,
+                "_key": self.key}
+
+    @state.setter
+    def state(self, st):
+        k = [int(v) for v in st["state"]["key"]]
+        newkey = k[0] + (k[1] << 64)
+        if not (isinstance(st.get("_key"), tuple) and newkey == 0):
+            self.key = newkey
+        self.counter = sum(int(v) << (64 * i) for i, v in enumerate(st["state"]["counter"]))
+        self.pos = int(st["buffer_pos"])
+        self.buf = st.get("_buf") if self.pos < 4 else None
+        self.h = int(st["has_uint32"])
+        self.u = st.get("_u") if self.h else None
 
 
 class _Generator:
-    def __init__(self, bitgen):
-        self.bitgen = bitgen
-        RNG_LOG.append(bitgen.key)
+    def __init__(self, bitgen=None):
+        self.bit_generator = bitgen if bitgen is not None else _Philox()
+        self.bitgen = self.bit_generator
 
-    def random(self, shape, dtype=None):
-        return anp.Const(tuple(shape), dtype, "random", None)
+    def random(self, size=None, dtype=None, out=None):
+        import numpy as np
+
+        bg = self.bit_generator
+        RNG_LOG.append(bg.key)
+        shape = () if size is None else ((size,) if isinstance(size, int) else tuple(size))
+        n = 1
+        for v in shape:
+            n = n * sx.conc(v)
+        is32 = dtype is not None and np.dtype(dtype) == np.dtype("float32")
+        DRAW_LOG.append((bg.snapshot(), n, bool(is32)))
+        bg.draw(n, is32)
+        return anp.Const(shape, dtype or np.float64, "random", None)
 
 
 class _RNG:
     Philox = _Philox
     Generator = _Generator
 
+    @staticmethod
+    def default_rng(seed=None):
+        return _Generator(_Philox(key=seed) if seed is not None else _Philox())
 
+
+DRAW_LOG = []
 RNG_LOG = []
 
 
@@ -201,6 +280,8 @@ class _ImportRewrite(ast.NodeTransformer):
 
 
 def rng_validate():
+    import itertools
+
     import numpy as np
 
     for k, ok in ((0, True), (2**128 - 1, True), (2**128, False), (-1, False)):
@@ -210,6 +291,38 @@ def rng_validate():
         except ValueError:
             real = False
         assert real == ok, (k, real)
+    # state evolution of the stub against the installed NumPy: counter, buffer position and the cached 32-bit half after every
+    # sequence of up to three draws of 1..5 float32 / float64 values
+    n = 0
+    for key in (0, 7, 2**128 - 1):
+        for seq in itertools.product([(1, 0), (2, 0), (3, 1), (1, 1), (2, 1), (5, 1), (4, 0)], repeat=3):
+            real = np.random.Generator(np.random.Philox(key=key))
+            mine = _Generator(_Philox(key=key))
+            for cnt, is32 in seq:
+                real.random((cnt,), dtype=np.float32 if is32 else np.float64)
+                mine.random((cnt,), dtype=np.float32 if is32 else np.float64)
+                rs = real.bit_generator.state
+                ms = mine.bit_generator.state
+                assert [int(v) for v in rs["state"]["counter"]] == [int(v) for v in ms["state"]["counter"]], (key, seq, rs, ms)
+                assert int(rs["buffer_pos"]) == int(ms["buffer_pos"]) and int(rs["has_uint32"]) == int(ms["has_uint32"]), (key, seq, rs, ms)
+                assert [int(v) for v in rs["state"]["key"]] == [int(v) for v in ms["state"]["key"]]
+            n += 1
+    # equal snapshots <=> equal streams, on NumPy itself: a generator re-keyed through its state dict gives the stream of a fresh one
+    # exactly when the cached half is cleared too
+    for clear in (True, False):
+        g = np.random.Generator(np.random.Philox(key=3))
+        g.random((3,), dtype=np.float32)
+        st = g.bit_generator.state
+        st["state"]["key"] = np.array([5, 0], dtype=np.uint64)
+        st["state"]["counter"] = np.zeros(4, dtype=np.uint64)
+        st["buffer_pos"] = 4
+        if clear:
+            st["has_uint32"] = 0
+        g.bit_generator.state = st
+        a = g.random((4,), dtype=np.float32)
+        b = np.random.Generator(np.random.Philox(key=5)).random((4,), dtype=np.float32)
+        assert bool((a == b).all()) == clear, (clear, a, b)
+    return n
 
 
 def random_keys(nb0, nb1, b0, b1, c0, c1, seed):
@@ -235,6 +348,50 @@ def random_keys(nb0, nb1, b0, b1, c0, c1, seed):
     sx.require(k1 == k2, "re-executed-block-draws-a-different-stream")
     same_block = sx.sand(b0 == c0, b1 == c1)
     sx.require(sx.sor(same_block, k1 != k3), "distinct-blocks-share-a-stream", f"blocks ({b0},{b1}) and ({c0},{c1})")
+
+
+def random_state_independence(nb, b, n, f32, k, p0, pn0, pf0, p1, pn1, pf1, seed):
+    """a block's draw may depend on (root seed, block id, shape, dtype) only -- not on what the same worker (thread / process) generated
+    before: the real cubed.random module (whole current source, fresh module state) generates k earlier blocks p0, p1 (element counts
+    and dtypes symbolic) and then block b; the generator state block b draws from must equal the state in a fresh process that
+    generates block b alone; and it must be a function of a key that is distinct for distinct blocks"""
+    import numpy as np
+
+    import cubed.random as cr
+
+    G.install()
+    nbv = sx.conc(nb)
+    sx.assume(b < nbv)
+    sx.assume(p0 < nbv)
+    sx.assume(p1 < nbv)
+    dt = lambda f: np.float32 if sx.conc(f) else np.float64  # noqa: E731
+    seedv = sx.conc(seed)
+    root = [5, 2**128 - 1, 2**64][seedv]
+
+    def run(blocks):
+        ns = loader.reload_module(cr, {"_RNG": _RNG}, transformer=_ImportRewrite())
+        f = ns["_random"]
+        del DRAW_LOG[:]
+        for (bid, cnt, f32_) in blocks:
+            x = anp.Const((sx.conc(cnt),), "float64", "empty")
+            f(x, numblocks=(nbv,), root_seed=root, dtype=dt(f32_), block_id=(sx.conc(bid),))
+        return list(DRAW_LOG)
+
+    kv = sx.conc(k)
+    earlier = [(p0, pn0, pf0), (p1, pn1, pf1)][:kv]
+    try:
+        after = run(earlier + [(b, n, f32)])
+        alone = run([(b, n, f32)])
+    except ValueError as ex:
+        raise sx.Violated("block-seed-outside-the-valid-key-range", str(ex)) from ex
+    sx.require(len(alone) == 1 and len(after) == kv + 1, "a-block-does-not-draw-exactly-once", f"{len(alone)} / {len(after)} draws")
+    sx.require(after[-1] == alone[0], "block-draw-depends-on-what-the-worker-generated-before",
+               f"block {sx.conc(b)} after {[(sx.conc(a), sx.conc(c), sx.conc(d)) for a, c, d in earlier]}: generator state {after[-1][0]} vs {alone[0][0]} in a fresh process")
+    key = alone[0][0][0]
+    sx.require(isinstance(key, int), "block-draws-from-an-unseeded-generator", str(key))
+    sx.require(alone[0][0][1:] == (0, 4, None, 0, None), "block-does-not-start-at-the-beginning-of-its-stream", str(alone[0][0]))
+    if kv >= 1 and sx.conc(p0) != sx.conc(b):
+        sx.require(after[0][0][0] != key, "distinct-blocks-share-a-stream", f"blocks {sx.conc(p0)} and {sx.conc(b)}")
 
 
 class RecTarget(G.ZStub):
@@ -414,6 +571,16 @@ def obligations(tier):
                  setup=rng_validate, functions=[cr._random, cr.random, cu.block_id_to_offset], wall_s=wall,
                  bounds="block grids up to 4x4, every pair of block ids, every 128-bit root seed (the range of random.getrandbits(128))",
                  stubs=["Philox/Generator recording stub (key range as NumPy)"]))
+
+    o.append(Obl("random-state-independence", random_state_independence,
+                 [("nb", 1, 2), ("b", 0, 1), ("n", 1, 2), ("f32", 0, 1), ("k", 0, 2), ("p0", 0, 1), ("pn0", 1, 3), ("pf0", 0, 1), ("p1", 0, 1), ("pn1", 1, 2), ("pf1", 0, 1), ("seed", 0, 1)] if tier == "quick" else
+                 [("nb", 1, 3), ("b", 0, 2), ("n", 1, 3), ("f32", 0, 1), ("k", 0, 2), ("p0", 0, 2), ("pn0", 1, 3), ("pf0", 0, 1), ("p1", 0, 2), ("pn1", 1, 3), ("pf1", 0, 1), ("seed", 0, 2)],
+                 setup=rng_validate, functions=[cr._random, cr.random, cu.block_id_to_offset], wall_s=wall,
+                 bounds="1-d grids of 1..2 (thorough: 3) blocks; 0..2 earlier blocks on the same worker with 1..3 elements each, float32 or float64; the block itself 1..2 (3) elements of either dtype; "
+                        "root seeds 5, 2**128-1 (and 2**64); all of these forked by value; the whole current source of cubed/random.py is executed in a fresh namespace per 'process'",
+                 outside="NumPy's Philox implementation beyond the state evolution checked at start (counter, buffer position, cached 32-bit half)",
+                 stubs=["Philox/Generator state model (harness/c06.py), validated against the installed NumPy at check start"],
+                 witness_rule=lambda m: m["k"] >= 1))
 
     import cubed.core.plan as cp
     import cubed.storage.store as cst
